@@ -35,6 +35,7 @@ type DebModel struct {
 	ExtraPos     int        `json:"extraPos,omitempty"` // 0: after data, 1: between control and data
 	Slash        bool       `json:"slash,omitempty"`    // GNU '/' terminated member names
 	Omit         string     `json:"omit,omitempty"`     // member left out: "", "debian-binary", "control", "data"
+	GzSplit      int        `json:"gzSplit,omitempty"`  // > 1: gzip members are written as that many concatenated gzip streams (RFC 1952 allows it)
 }
 
 var codecs = []string{"", "gz", "xz", "bz2", "lzma", "zst"}
@@ -149,11 +150,30 @@ func buildDeb(m DebModel) ([]byte, []ArMember, error) {
 	if err != nil {
 		return nil, nil, err
 	}
-	cz, err := compress(m.CtlCodec, ctar)
+	comp := func(codec string, data []byte) ([]byte, error) {
+		if codec != "gz" || m.GzSplit < 2 || len(data) < m.GzSplit {
+			return compress(codec, data)
+		}
+		var out []byte
+		step := len(data)/m.GzSplit/512*512 + 512
+		for off := 0; off < len(data); off += step {
+			end := off + step
+			if end > len(data) {
+				end = len(data)
+			}
+			z, err := compress("gz", data[off:end])
+			if err != nil {
+				return nil, err
+			}
+			out = append(out, z...)
+		}
+		return out, nil
+	}
+	cz, err := comp(m.CtlCodec, ctar)
 	if err != nil {
 		return nil, nil, err
 	}
-	dz, err := compress(m.DataCodec, dtar)
+	dz, err := comp(m.DataCodec, dtar)
 	if err != nil {
 		return nil, nil, err
 	}
@@ -287,6 +307,9 @@ func genDebModel(t *rapid.T) DebModel {
 	m.CtlCodec = rapid.SampledFrom(codecs).Draw(t, "ctlcodec")
 	m.DataCodec = rapid.SampledFrom(codecs).Draw(t, "datacodec")
 	m.Slash = rapid.IntRange(0, 3).Draw(t, "slash") == 0
+	if rapid.IntRange(0, 3).Draw(t, "gzsplit") == 0 {
+		m.GzSplit = rapid.IntRange(2, 4).Draw(t, "gzsplitN")
+	}
 	ne := rapid.SampledFrom([]int{0, 0, 1, 2}).Draw(t, "nextra")
 	for i := 0; i < ne; i++ {
 		name := rapid.SampledFrom([]string{"_gpgorigin", "_gpgbuilder", "_x", "_meta.json", "_" + genFromAlphabet(t, "en", "abc019", 1, 8)}).Draw(t, "ename")
